@@ -245,6 +245,14 @@ def m_tc19q(ctx, case):
     ctx.hit("tc19q")
 
 
+# (type code, supplement) combinations that have a horizontal containment radius in DO-260B tables N-4 / N-11 as
+# implemented at the pinned revision; a None for one of them means the look-up lost part of its domain
+DOMAIN_V1 = {(5, 0), (6, 0), (7, 1), (9, 0), (10, 0), (11, 0), (11, 1), (12, 0), (13, 0), (13, 1), (14, 0), (15, 0), (16, 0),
+             (16, 1), (17, 0), (20, 0), (21, 0)}
+DOMAIN_V2 = {(5, 0), (6, 0), (7, 0), (7, 2), (8, 1), (8, 2), (8, 3), (9, 0), (10, 0), (11, 0), (11, 3), (12, 0), (12, 3), (13, 0),
+             (13, 1), (13, 2), (13, 3), (14, 0), (15, 0), (16, 0), (16, 3), (17, 0)} | {(t, s) for t in (20, 21) for s in range(4)}
+
+
 def monotone(ctx, name, rows):
     """rows: (category, bound) with non-None bounds: higher category never has a larger bound"""
     rows = [(c, b) for c, b in rows if c is not None and b is not None]
@@ -259,6 +267,8 @@ def m_lookups(ctx, case):
     from pyModeS import adsb
     rng = ctx.rng
     rows = {"nuc_p_HPL": [], "nuc_p_RCu": [], "nic_v1": [], "nic_v2": []}
+    bytc = {"nuc_p": {}, "nic_v1": {}, "nic_v2": {}}
+    seen = {}
     for tc in [t for t in range(5, 23) if t != 19]:
         for rep in range(case["reps"]):
             me = (tc << 51) | rng.getrandbits(51)
@@ -269,6 +279,7 @@ def m_lookups(ctx, case):
                 ctx.violation("lookup-not-total", api="nuc_p", frame=hx, tc=tc, observed=r[1:])
             else:
                 rows["nuc_p_HPL"].append((r[1][0], r[1][1]))
+                bytc["nuc_p"].setdefault(tc, set()).add((r[1][0], r[1][1]))
                 rows["nuc_p_RCu"].append((r[1][0], r[1][2]))
             for s in (0, 1):
                 r = call(adsb.nic_v1, hx, s)
@@ -277,6 +288,8 @@ def m_lookups(ctx, case):
                     ctx.violation("lookup-not-total", api="nic_v1", frame=hx, tc=tc, nics=s, observed=r[1:])
                 else:
                     rows["nic_v1"].append((r[1][0], r[1][1]))
+                    bytc["nic_v1"].setdefault(tc, set()).add((r[1][0], r[1][1]))
+                    seen[("nic_v1", tc, s)] = (r[1][0], r[1][1])
                 for b in (0, 1):
                     r = call(adsb.nic_v2, hx, s, b)
                     ctx.ev()
@@ -284,6 +297,8 @@ def m_lookups(ctx, case):
                         ctx.violation("lookup-not-total", api="nic_v2", frame=hx, tc=tc, nica=s, nicbc=b, observed=r[1:])
                     else:
                         rows["nic_v2"].append((r[1][0], r[1][1]))
+                        bytc["nic_v2"].setdefault(tc, set()).add((r[1][0], r[1][1]))
+                        seen[("nic_v2", tc, s * 2 + b)] = (r[1][0], r[1][1])
             if 9 <= tc <= 18:
                 r = call(adsb.nic_b, hx)
                 ctx.ev()
@@ -292,6 +307,22 @@ def m_lookups(ctx, case):
             ctx.nontrivial(("lk", hx))
     for k, v in rows.items():
         monotone(ctx, k, v)
+    # the type code itself orders the accuracy classes: inside a group (5-8, 9-18, 20-22) a higher type code never
+    # carries a higher category nor a tighter bound than a lower one
+    for k, per in bytc.items():
+        for grp in ((5, 6, 7, 8), tuple(range(9, 19)), (20, 21, 22)):
+            for t1 in grp:
+                for t2 in grp:
+                    if t1 < t2:
+                        for (c1, b1) in per.get(t1, ()):
+                            for (c2, b2) in per.get(t2, ()):
+                                if (c1 is not None and c2 is not None and c1 < c2) or (b1 is not None and b2 is not None and b1 > b2):
+                                    ctx.violation("lookup-not-monotone-in-typecode", table=k, tc_low=[t1, c1, b1], tc_high=[t2, c2, b2])
+    # domain: the supplement combinations for which a containment radius is defined must keep returning one
+    for (api, tc, sup), r in sorted(seen.items()):
+        want = (tc, sup) in (DOMAIN_V1 if api == "nic_v1" else DOMAIN_V2)
+        if want and (r[0] is None or r[1] is None):
+            ctx.violation("lookup-loses-domain-entry", api=api, tc=tc, supplement=sup, observed=r)
     # NACp / NACv / NUCv / SIL monotone over their whole code range
     nacp, nacp_v, sil_rows, nucv, nacv = [], [], [], [], []
     for n in range(16):
